@@ -9,7 +9,9 @@ from .. import estimators as E, gen
 RULE = ('per estimator: Hypothesis training descriptors (d in 2..8, 2-4 classes >= 4 members, n >= 4d, scale '
         '1e-2..1e2, anisotropy <= 100, arbitrary label codes) x the FULL Cartesian product of documented '
         'option values for that (d, n_classes) (init/prior/basis/embedding_type/k/n_components, enumerated '
-        'exhaustively per descriptor). One evaluation = one (descriptor, option tuple) fit. Non-trivial = '
+        'exhaustively per descriptor); for LMNN/NCA/MLKR/LFDA additional "wide" shards draw many descriptors (class '
+        'separation up to 4 sigma) with one option tuple each and drawn n_neighbors / learn_rate / regularization / '
+        'max_iter. One evaluation = one (descriptor, option tuple) fit. Non-trivial = '
         'some option differs from the default, or the dataset is unbalanced / non-unit scale; distinct by '
         '(estimator, options, descriptor).')
 ASSUMPTIONS = ['SDML: balance_param drawn as half the largest value keeping the graphical-lasso input positive '
@@ -18,10 +20,10 @@ ASSUMPTIONS = ['SDML: balance_param drawn as half the largest value keeping the 
 EXHAUSTIVE = True   # over the option product of each drawn descriptor
 
 
-def check_one(name, opts, desc, aseed, stats):
+def check_one(name, opts, desc, aseed, stats, extra=None):
   data = gen.Data(desc)
   d = data.d
-  params = E.materialize(name, opts, data, aseed)
+  params = E.materialize(name, opts, data, aseed, extra)
   est = E.build(name, params)
   with recorded_warnings() as w:
     r = E.fit_call('C03/fit', name, est, E.fit_args(name, data), desc, params,
@@ -85,7 +87,10 @@ def check_c03(case, stats):
   name, desc = case['est'], case['desc']
   nc = len(desc['sizes'])
   if case.get('opts') is not None:
-    check_one(name, case['opts'], desc, case.get('aseed', 0), stats)
+    extra = case.get('extra')
+    if name == 'LMNN' and extra and min(desc['sizes']) <= extra.get('n_neighbors', 0):
+      raise Discard('class smaller than n_neighbors + 1')
+    check_one(name, case['opts'], desc, case.get('aseed', 0), stats, extra)
     return
   for opts in E.enumerate_options(name, desc['d'], nc):
     check_one(name, opts, desc, case.get('aseed', 0), stats)
@@ -96,6 +101,24 @@ def case_strategy(draw, name, dmax):
   return dict(est=name, desc=draw(gen.dataset_desc(dmax=dmax)), aseed=draw(st.integers(0, 99)), opts=None)
 
 
+WIDE = ('LMNN', 'NCA', 'MLKR', 'LFDA')      # large option products: few descriptors in the exhaustive shard
+
+
+@st.composite
+def wide_strategy(draw, name, dmax):
+  """many descriptors, ONE drawn option tuple each, numeric hyper-parameters drawn as well"""
+  desc = draw(gen.dataset_desc(dmax=dmax, max_sep=draw(st.sampled_from([1.5, 3.0, 4.0]))))
+  allopts = E.enumerate_options(name, desc['d'], len(desc['sizes']))
+  opts = allopts[draw(st.integers(0, len(allopts) - 1))]
+  extra = {}
+  if name == 'LMNN':
+    extra = dict(n_neighbors=draw(st.integers(1, 3)), learn_rate=10.0 ** draw(st.integers(-7, -3)),
+                 regularization=draw(st.sampled_from([0.1, 0.5, 0.9])), max_iter=draw(st.sampled_from([3, 12, 30])))
+  elif name in ('NCA', 'MLKR'):
+    extra = dict(max_iter=draw(st.sampled_from([1, 8, 30])))
+  return dict(est=name, desc=desc, aseed=draw(st.integers(0, 99)), opts=opts, extra=extra)
+
+
 CHECKS = {'check_c03': check_c03}
 # (descriptors per estimator, dmax)
 _B = {'quick': (3, 5), 'thorough': (12, 8)}
@@ -104,12 +127,15 @@ _FEW = ('Covariance', 'RCA', 'RCA_Supervised', 'ITML', 'ITML_Supervised', 'MMC',
 
 
 def shards(tier):
-  return [dict(name=n, est=n) for n in E.ALL]
+  return [dict(name=n, est=n) for n in E.ALL] + [dict(name='%s-wide-%d' % (n, i), est=n, wide=True) for n in WIDE for i in range(3 if n == 'LMNN' else 1)]
 
 
 def run_shard(shard, tier, seed, stats, known_sigs):
   n, dmax = _B[tier]
   name = shard['est']
+  if shard.get('wide'):
+    return drive(check_c03, wide_strategy(name, dmax), {'quick': 60, 'thorough': 1500}[tier], seed, stats, known_sigs,
+                 name='check_c03')
   if name in _FEW:      # small option products: more descriptors
     n *= 4
   return drive(check_c03, case_strategy(name, dmax), n, seed, stats, known_sigs, name='check_c03')
